@@ -114,18 +114,18 @@ theorem pstep_mltP (hF : FiniteTable inp N) {s s' : Sys} {c : Choice} (hr : PRea
     | cons j js =>
       simp only [hq] at hs
       cases j with
-      | hold => cases hs; exact mltP_same hU (SameM.of_nodes rfl) (by simp [restOf, extraOf, hq]; omega)
+      | hold => cases hs; exact mltP_same hU (SameM.of_nodes rfl) (by simp [restOf, curW, extraOf, hq] <;> omega)
       | stop =>
         cases hs
         refine mltP_same hU (SameM.of_nodes rfl) ?_
         have := cntRun_set_nonrun s.workers w .exited (by simp [hidle, isRun]) rfl s.nStarted
-        simp only [restOf, extraOf, setWorker, hq, this, List.length_cons]
+        simp only [restOf, curW, extraOf, setWorker, hq, this, List.length_cons]
         omega
       | task n =>
         cases hs
         refine mltP_same hU (SameM.of_nodes rfl) ?_
         have := cntRun_set_le s.workers w (.running n) s.nStarted
-        simp only [restOf, extraOf, setWorker, startTask, hq, List.length_cons]
+        simp only [restOf, curW, extraOf, setWorker, startTask, hq, List.length_cons]
         omega
   | done w =>
     simp only [pstep] at hs
@@ -139,9 +139,12 @@ theorem pstep_mltP (hF : FiniteTable inp N) {s s' : Sys} {c : Choice} (hr : PRea
         intro h
         have := hP.ns w (by omega)
         rw [hw] at this; cases this
-      have := cntRun_update s.workers w .idle s.nStarted hlt
-      simp only [hw, isRun, if_true, Bool.false_eq_true, if_false] at this
-      simp only [restOf, extraOf, setWorker, List.length_append, List.length_singleton]
+      have hcr : cntRun (fun i => if i = w then WState.idle else s.workers i) s.nStarted + 1 =
+          cntRun s.workers s.nStarted := by
+        have := cntRun_update s.workers w .idle s.nStarted hlt
+        simp [hw, isRun] at this
+        omega
+      simp only [restOf, curW, extraOf, setWorker, List.length_append, List.length_singleton]
       omega
     | notStarted => simp only [hw] at hs; cases hs
     | idle => simp only [hw] at hs; cases hs
@@ -153,7 +156,7 @@ theorem pstep_mltP (hF : FiniteTable inp N) {s s' : Sys} {c : Choice} (hr : PRea
     | gEntry completed ret =>
       simp only [hrp] at hs
       split at hs <;>
-        (cases hs; exact mltP_same hU (SameM.of_nodes rfl) (by simp [restOf, extraOf, hrp, rOf]))
+        (cases hs; exact mltP_same hU (SameM.of_nodes rfl) (by simp [restOf, curW, extraOf, hrp, rOf]))
     | gLoop node ret =>
       simp only [hrp] at hs
       cases hsd : send inp s node perm with
@@ -168,7 +171,7 @@ theorem pstep_mltP (hF : FiniteTable inp N) {s s' : Sys} {c : Choice} (hr : PRea
         have e3 : linS inp N { s0 with rpc := RPC.gWait ret } = linS inp N s0 := rfl
         have hrest : restOf { s0 with rpc := RPC.gWait ret } + 5 * s.ready.length + 1 ≤
             restOf s + 5 * s0.ready.length := by
-          rcases hsu with h | h <;> simp [restOf, hrp, rOf, wRank, f1, f2, h] <;> omega
+          rcases hsu with h | h <;> simp [restOf, curW, hrp, rOf, wRank, f1, f2, h] <;> omega
         refine mltP_of_mlt hU ?_ hex
         right; refine ⟨by omega, ?_⟩
         rcases g2 with a | ⟨a, b⟩
@@ -192,7 +195,7 @@ theorem pstep_mltP (hF : FiniteTable inp N) {s s' : Sys} {c : Choice} (hr : PRea
           cases hn : s.nodes n with
           | none =>
             simp only [hn] at hs; cases hs
-            exact mltP_same hU (SameM.of_nodes rfl) (by simp [restOf, extraOf, raise, hrp, hsu, rOf, wRank]; omega)
+            exact mltP_same hU (SameM.of_nodes rfl) (by simp [restOf, curW, extraOf, raise, hrp, hsu, rOf, wRank] <;> omega)
           | some nd =>
             simp only [hn] at hs
             have key : ∀ (rpc' : RPC) (hd : selDecision inp n nd ≠ .assertFail),
@@ -204,7 +207,7 @@ theorem pstep_mltP (hF : FiniteTable inp N) {s s' : Sys} {c : Choice} (hr : PRea
                 (sameM_status hn (selStatus (selDecision inp n nd)) (applySel_nodes _ _ _ _ _ hd)) ?_
               obtain ⟨a, b, c, d⟩ := applySel_rest (inp := inp) s n nd (selDecision inp n nd)
               obtain ⟨x1, x2, x3, x4⟩ := applySel_extra (inp := inp) s n nd (selDecision inp n nd)
-              simp only [restOf, extraOf, a, b, c, d, x1, x2, x3, x4]
+              simp only [restOf, curW, extraOf, a, b, c, d, x1, x2, x3, x4]
               omega
             cases hd : selDecision inp n nd with
             | go =>
@@ -213,7 +216,7 @@ theorem pstep_mltP (hF : FiniteTable inp N) {s s' : Sys} {c : Choice} (hr : PRea
               rwa [hd] at this
             | assertFail =>
               simp only [hd] at hs; cases hs
-              exact mltP_same hU (SameM.of_nodes rfl) (by simp [restOf, extraOf, raise, hrp, hsu, rOf, wRank]; omega)
+              exact mltP_same hU (SameM.of_nodes rfl) (by simp [restOf, curW, extraOf, raise, hrp, hsu, rOf, wRank] <;> omega)
             | skipIgn =>
               simp only [hd] at hs; cases hs
               have := key (.gLoop (some n) ret) (by simp [hd]) (by simp [hrp, hsu, rOf, wRank]) (by rw [hd]; exact hU)
@@ -240,51 +243,53 @@ theorem pstep_mltP (hF : FiniteTable inp N) {s s' : Sys} {c : Choice} (hr : PRea
               rwa [hd] at this
         | holdOn =>
           cases hs
-          exact mltP_same hU (SameM.of_nodes rfl) (by simp [restOf, extraOf, hrp, hsu, rOf, wRank])
+          exact mltP_same hU (SameM.of_nodes rfl) (by simp [restOf, curW, extraOf, hrp, hsu, rOf, wRank])
         | stopIter =>
           cases hs
-          exact mltP_same hU (SameM.of_nodes rfl) (by simp [restOf, extraOf, hrp, hsu, rOf, wRank])
+          exact mltP_same hU (SameM.of_nodes rfl) (by simp [restOf, curW, extraOf, hrp, hsu, rOf, wRank])
         | cyclic n =>
           cases hs
-          exact mltP_same hU (SameM.of_nodes rfl) (by simp [restOf, extraOf, raise, hrp, hsu, rOf, wRank]; omega)
+          exact mltP_same hU (SameM.of_nodes rfl) (by simp [restOf, curW, extraOf, raise, hrp, hsu, rOf, wRank] <;> omega)
         | crash =>
           cases hs
-          exact mltP_same hU (SameM.of_nodes rfl) (by simp [restOf, extraOf, raise, hrp, hsu, rOf, wRank]; omega)
+          exact mltP_same hU (SameM.of_nodes rfl) (by simp [restOf, curW, extraOf, raise, hrp, hsu, rOf, wRank] <;> omega)
     | gRet job ret =>
       simp only [hrp] at hs; cases hs
+      have hUe : ∀ x : Sys, x.nodes = s.nodes → U2 N x ≤ U2 N s := by
+        intro x e; unfold U2; simp [stOf_congr e]
       cases ret with
       | startLoop k =>
         simp only [gReturn]
         split
-        · exact mltP_same hU (SameM.of_nodes rfl) (by simp [restOf, extraOf, hrp, rOf, loopK]; omega)
+        · exact mltP_same (hUe _ rfl) (SameM.of_nodes rfl) (by simp [restOf, curW, extraOf, hrp, rOf, loopK] <;> omega)
         · split
-          · refine mltP_same hU (SameM.of_nodes rfl) ?_
+          · refine mltP_same (hUe _ rfl) (SameM.of_nodes rfl) ?_
             have := cntRun_start s.workers s.nStarted
-            simp only [restOf, extraOf, setWorker, hrp, rOf, loopK, this, List.length_append, List.length_singleton]
+            simp only [restOf, curW, extraOf, setWorker, hrp, rOf, loopK, this, List.length_append, List.length_singleton]
             omega
           · rename_i hk
-            refine mltP_same hU (SameM.of_nodes rfl) ?_
+            refine mltP_same (hUe _ rfl) (SameM.of_nodes rfl) ?_
             have := cntRun_start s.workers s.nStarted
-            simp only [restOf, extraOf, setWorker, hrp, rOf, loopK, this, List.length_append, List.length_singleton]
+            simp only [restOf, curW, extraOf, setWorker, hrp, rOf, loopK, this, List.length_append, List.length_singleton]
             omega
       | feedLoop k =>
         simp only [gReturn]
         split
         · split
-          · refine mltP_same hU (SameM.of_nodes rfl) ?_
-            simp only [restOf, extraOf, hrp, rOf, loopK, List.length_append, List.length_singleton]
+          · refine mltP_same (hUe _ rfl) (SameM.of_nodes rfl) ?_
+            simp only [restOf, curW, extraOf, hrp, rOf, loopK, List.length_append, List.length_singleton]
             omega
-          · refine mltP_same hU (SameM.of_nodes rfl) ?_
-            simp only [restOf, extraOf, raise, hrp, rOf, loopK, List.length_append, List.length_singleton]
-            omega
+          · refine mltP_same (hUe _ rfl) (SameM.of_nodes rfl) ?_
+            cases hcur : s.cur <;>
+              simp [restOf, curW, extraOf, raise, hrp, rOf, loopK, List.length_append, hcur] <;> omega
         · rename_i hk
-          refine mltP_same hU (SameM.of_nodes rfl) ?_
-          simp only [restOf, extraOf, hrp, rOf, loopK, List.length_append, List.length_singleton]
+          refine mltP_same (hUe _ rfl) (SameM.of_nodes rfl) ?_
+          simp only [restOf, curW, extraOf, hrp, rOf, loopK, List.length_append, List.length_singleton]
           omega
     | pTop =>
       simp only [hrp] at hs
       split at hs
-      · cases hs; exact mltP_same hU (SameM.of_nodes rfl) (by simp [restOf, extraOf, hrp, rOf])
+      · cases hs; exact mltP_same hU (SameM.of_nodes rfl) (by simp [restOf, curW, extraOf, hrp, rOf])
       · cases hq : s.resQ with
         | nil => simp only [hq] at hs; cases hs
         | cons n rest =>
@@ -292,18 +297,19 @@ theorem pstep_mltP (hF : FiniteTable inp N) {s s' : Sys} {c : Choice} (hr : PRea
           cases hn : s.nodes n with
           | none =>
             simp only [hn] at hs; cases hs
-            exact mltP_same hU (SameM.of_nodes rfl) (by simp [restOf, extraOf, raise, hrp, rOf])
+            exact mltP_same hU (SameM.of_nodes rfl)
+              (by cases hcur : s.cur <;> simp [restOf, curW, extraOf, raise, hrp, rOf, hcur])
           | some nd =>
             simp only [hn] at hs; cases hs
             left
             have hq1 := hi.2.q1 n (by rw [hq]; simp)
-            have hst : ∀ x, stOf { processResult inp { s with resQ := rest } n nd with
+            have hst : ∀ x, stOf { processResult inp { s with rpc := .pTop, resQ := rest } n nd with
                 rpc := .gEntry (some n) (.feedLoop (s.freeProc + 1)), freeProc := 0 } x =
                 if x = n then resStatus (inp.outcome n) else stOf s x := by
               intro x
-              have a : stOf { processResult inp { s with resQ := rest } n nd with
+              have a : stOf { processResult inp { s with rpc := .pTop, resQ := rest } n nd with
                   rpc := .gEntry (some n) (.feedLoop (s.freeProc + 1)), freeProc := 0 } x =
-                  stOf (processResult inp { s with resQ := rest } n nd) x := stOf_congr rfl x
+                  stOf (processResult inp { s with rpc := .pTop, resQ := rest } n nd) x := stOf_congr rfl x
               rw [a, stOf_processResult]; rfl
             refine u2_lt_result (hb n nd hn) (by rw [hq1.2]; rfl) (by rw [hst]; simp [resStatus_finished]) ?_
             intro x hx
@@ -314,11 +320,11 @@ theorem pstep_mltP (hF : FiniteTable inp N) {s s' : Sys} {c : Choice} (hr : PRea
     | pJoin =>
       simp only [hrp] at hs
       split at hs
-      · cases hs; exact mltP_same hU (SameM.of_nodes rfl) (by simp [restOf, extraOf, hrp, rOf])
+      · cases hs; exact mltP_same hU (SameM.of_nodes rfl) (by simp [restOf, curW, extraOf, hrp, rOf])
       · cases hs
     | fin =>
       simp only [hrp] at hs; cases hs
-      exact mltP_same hU (SameM.of_nodes rfl) (by simp [restOf, extraOf, finishRun, hrp, rOf])
+      exact mltP_same hU (SameM.of_nodes rfl) (by simp [restOf, curW, extraOf, finishRun, hrp, rOf])
     | sTop a => simp only [hrp] at hs; cases hs
     | sWait => simp only [hrp] at hs; cases hs
     | sExec a => simp only [hrp] at hs; cases hs
